@@ -5,12 +5,12 @@ import os
 import sys
 
 sys.path.insert(0, os.path.dirname(os.path.dirname(os.path.abspath(__file__))))
-from vcheck import engine, entries  # noqa: E402
+from vcheck import engine, entries, props  # noqa: E402
 from vcheck.rules import total_rule  # noqa: E402
 
 ctx = engine.Ctx("quick")
 for pid, spec in entries.TOTAL_ENTRIES.items():
-    total_rule.run(ctx, spec, 0, "all", label=pid, own_only=(pid == "C20"))
+    total_rule.run(ctx, spec, 0, "all", label=pid, own_only=(pid == "C20"), kernels=pid in props.KERNEL_PROPS)
 stale = total_rule.stale_rows(ctx, "all")
 for fn, kind, what in stale:
     print("STALE-ROW %s | %s | %s" % (fn.replace("crate::", ""), kind, what))
